@@ -15,9 +15,11 @@ EXPLANATION = ('the real ROI classes are executed on symbolic points and symboli
 PI = math.pi
 EPS_IN, EPS_OUT = 5e-10, 3e-9         # inside / outside the 1e-9 axis-alignment tolerance of the code
 ANGLES_QUICK = [0.0, PI / 2, PI, -PI / 2, 2 * PI, EPS_IN, PI / 2 - EPS_IN, PI + EPS_OUT, PI / 2 + EPS_OUT,
-                0.3, 2.0, -0.7, 2.6, 4.0, 5.5]
+                -PI / 2 + EPS_IN, -3 * PI / 2 + EPS_IN, 0.3, 2.0, -0.7, 2.6, 4.0, 5.5]
 ANGLES_THOROUGH = ANGLES_QUICK + [3 * PI / 2, -PI, PI - EPS_IN, -EPS_IN, 3 * PI / 2 + EPS_IN, -EPS_OUT, 1.0, 1.3, 3.0,
-                                  -2.2, 6.0, 7.5, 0.01, PI / 4, 3 * PI / 4]
+                                  -2.2, 6.0, 7.5, 0.01, PI / 4, 3 * PI / 4, -PI / 2 - EPS_IN, -PI + EPS_IN, 5 * PI / 2 + EPS_IN,
+                                  -5 * PI / 2 + EPS_IN, -PI / 2 + 2.0 ** -52]
+ROTATE_TO = [0.0, PI / 2, 2.0, -PI / 2 + EPS_IN]      # targets of rotate_to (independent of the starting angle)
 
 
 class IdCtx:
@@ -122,7 +124,7 @@ def body_rect(env, angles=ANGLES_QUICK, n=2):
         env.close(roi.height(), h, 1e-9, 'rect: height unchanged by move_to')
         cx, cy = nx, ny
     elif stage == 2:              # rotate_to another listed angle: rotates about the centre
-        theta = angles[env.choice('theta2', len(angles))]
+        theta = ROTATE_TO[env.choice('theta2', len(ROTATE_TO))]
         roi.rotate_to(theta)
         c = roi.center()
         env.close(c[0], cx, 1e-9, 'rect: centre x unchanged by rotate_to')
@@ -180,7 +182,7 @@ def body_ellipse(env, angles=ANGLES_QUICK, n=1, symbolic_radii=False):
         env.same(c[1], ny, 'ellipse: reported centre y after move_to')
         cx, cy = nx, ny
     elif stage == 2:
-        theta = angles[env.choice('theta2', len(angles))]
+        theta = ROTATE_TO[env.choice('theta2', len(ROTATE_TO))]
         roi.rotate_to(theta)
     elif stage == 3:
         roi2 = roi.copy()
@@ -498,10 +500,18 @@ def body_projected(env, n=3):
         mk = lambda v: sn.wrap(np.array(v, dtype=object))
     else:
         mk = lambda v: np.array(v, dtype=float)
-    lay = env.choice('layout', 2)
+    lay = env.choice('layout', 5 if n % 2 == 0 else 2)
     X, Y, Z = mk(xs), mk(ys), mk(zs)
     if lay == 1:
         X, Y, Z = X.reshape((n, 1)), Y.reshape((n, 1)), Z.reshape((n, 1))
+    elif lay >= 2:
+        # 2-d inputs: C-ordered, Fortran-ordered (same logical content, different memory order), or a mix of layouts
+        X, Y, Z = X.reshape((n // 2, 2)), Y.reshape((n // 2, 2)), Z.reshape((n // 2, 2))
+        fort = lambda a: a.T.copy().T
+        if lay == 3:
+            X, Y, Z = fort(X), fort(Y), fort(Z)
+        elif lay == 4:
+            X = fort(X)
     r = roi.contains3d(X, Y, Z)
     env.true(tuple(np.shape(r)) == tuple(np.shape(X)), 'projected: result shape')
     r = np.asarray(r).reshape(-1)
@@ -535,8 +545,9 @@ def harnesses(tier):
                           weight=3, bounds=dict(polygon=nm, vertices=POLYS[nm], points=2),
                           assumptions=['S-path: matplotlib Path.contains_points modelled by the crossing-number test on '
                                        'symbolic points (real C++ routine used on replay)']))
-    hs.append(Harness('projected3d', body_projected, params=dict(n=3), validate=40,
-                      bounds=dict(points=3, projections=len(PROJ), chunk_limit='clamped to 2 elements'),
+    hs.append(Harness('projected3d', body_projected, params=dict(n=4), validate=40,
+                      bounds=dict(points=4, projections=len(PROJ), chunk_limit='clamped to 2 elements',
+                                  layouts=['1-d', 'column', '2-d C order', '2-d Fortran order', 'mixed orders']),
                       assumptions=['iterate_chunks n_max clamped to 2 through a wrapper of the name in glue.core.roi']))
     if tier == 'thorough':
         for i, ch in enumerate(chunks):
